@@ -601,6 +601,14 @@ impl BufferTransformT for ASCII85Decode<'_> {
                 },
             }
         }
+        // The crate silently drops a final group of a single
+        // character, which cannot encode anything.
+        if n == 1 {
+            let err = ErrorKind::TransformError(
+                "ASCII85Decode: final group of a single character".to_string(),
+            );
+            return Err(locate_value(err, loc.loc_start(), loc.loc_end()))
+        }
 
         let prev_hook = panic::take_hook();
 
